@@ -89,7 +89,7 @@ def AfterBmca (dflt : DefaultDS) (ebest : Option Best) (lbs : List (Nat × Optio
         p.cfg.masterOnly = false)
     ∨ (j + 1 ∉ order ∧ p'.st = p.st)) ∧
   (p'.st = .master → p.st = .master ∨ dflt.slaveOnly = false) ∧
-  (j + 1 ∈ order → dflt.slaveOnly = true → p'.st ≠ .master) ∧ p'.seqs = p.seqs
+  (j + 1 ∈ order → dflt.slaveOnly = true → p'.st ≠ .master) ∧ p'.inert = p.inert
 
 theorem bmcaWith_ports (i i' : Inst) (order : List Nat) (step : Int) (obs : Obs) (hnd : order.Nodup)
     (h : i.bmcaWith order step = .ok (i', obs)) :
